@@ -169,6 +169,33 @@ CHECKS = {
     ),
 }
 
+# additions of the third session, appended to the level text (and technique where it changed)
+ADD_TEXT = {
+    "C01": " The generator also builds existential packages (abstract data types built, opened, used), comatch redexes, destructuring binds and tuple literals regrouped by patterns; the catalogue has cases for every soundness defect reported so far (duplicate constructors, value-level binders, synthesizing fix, shared forall witnesses).",
+    "C02": " Styles also print abstractions as copattern clauses; programs contain existential packages, comatch redexes and regrouped tuple bindings.",
+    "C03": " Error injection includes three definite existential-package errors (wrong witness, escaping witness, abstract type used at its representation).",
+    "C04": " A small family of matches over types with an uninhabited component documents the open finding that the checker treats every type as inhabited.",
+    "C05": " Float32 literals are judged against the decimal rounded once to Float32 (not through Float64): literals beyond Float64 and literals a hair off a Float32 midpoint are fixed cases.",
+    "C06": " Random handle histories (open / read / write / flush / close over several files, every capability ever obtained reused at random) are checked against a model: closed capabilities stay closed whatever is opened later, open ones never share state, files hold the modelled bytes at the quiescent point.",
+    "C07": " A further strategy names annotated binders like a type alias used only in their own annotation, and 21 scope-extent probes require an Unbound error for occurrences outside the scope the rules give their would-be binder.",
+    "C08": " Blocks with 2-4 parameters annotated through alias chains defined in the same block are printed under many placements of the definitions; acceptance and the printed argument-to-parameter mapping must not depend on the placement.",
+    "C09": " Companions may be symbolic links to a signature in another directory (with its own relative import and a decoy next to the link), also shared by two implementations.",
+    "C10": " A trivia family decorates readable programs with hostile lexical trivia (multi-line comments whose continuation lines start with Unicode white space, tabs, form feeds, CR, BOM, missing final newline); a witness family re-runs every input that ever crashed the front end.",
+    "C11": " A block comment still open at the end of the input counts as an irregular token, not as a comment.",
+    "C12": " Workload families added: verbatim regions in context, text blocks attached to literal / doc annotations, strings with raw control and format characters and raw line breaks, nested directives, vertical re-breaking, redundant parentheses with a break inside; the CLI leg also feeds token-mutated unparseable files.",
+    "C13": " Verbatim regions (extent from the parser's spans) must occur byte for byte in the output; comment payloads include multi-line, non-ASCII and delimiter look-alike content.",
+    "C14": " Further canonical legs compare a source with the same source plus one redundant single-line parenthesis pair (where the policy drops them and the pair is not printed as a multi-line group) and with one pun spelling toggled, each variant confirmed to desugar identically.",
+    "C16": " Programs with several duplicate definitions, unbound names or missing arms at once, and random ill-formed grammar terms, target the order in which ambiguous diagnostics are chosen.",
+    "C17": " The quick tier also runs the allocator-identity race under Miri at four scheduler seeds.",
+    "C18": " Generated programs include comatch redexes inside thunks / continuations / fix bodies and existential packages.",
+    "C19": " Generated programs include destructuring binds that return one component, comatch redexes and existential packages.",
+    "C20": " Inside blocks, tuple literals taken apart by patterns with another grouping are generated on purpose.",
+}
+TECHNIQUE = {
+    "C17": "concurrency stress monitor with sequential oracles over a logical-clock event log; delay injection through the guarded verif-hooks pause points; Miri (many seeds) on the allocator race in both tiers, ThreadSanitizer (-Zbuild-std) on the storm in the thorough tier",
+    "C06": "contract monitor: every host role called through the public machine step against a reference model (text in Unicode scalars, I/O error continuations), random handle histories against a capability model, signature mutations through the real checker",
+}
+
 NOT_YET = "check not built yet in this revision of /verif (work in progress; see DESIGN.md section 5 for the planned monitor)"
 
 def main():
@@ -179,6 +206,8 @@ def main():
         pid = p['id']
         if pid in CHECKS:
             technique, text, note, ref = CHECKS[pid]
+            text = text + ADD_TEXT.get(pid, "")
+            technique = TECHNIQUE.get(pid, technique)
             checks.append({
                 "property_id": pid,
                 "quick_cmd": f"bin/check {pid} quick",
